@@ -44,7 +44,7 @@ func ruleInputImmutable(c *Ctx, rule string, fns []*ssa.Function) {
 
 func runC12(c *Ctx) {
 	P := c.P
-	c.Explanation = "Decides: (R-INPUT-IMMUTABLE) none of LCS/LCSFunc/LIS/LISFunc/LNDS/LNDSFunc/bisectRight/EditScript/editScriptFunc (nor their closures) can write through its input: every element store, copy destination, append base, clear, and every slice passed to a mutating callee (summaries computed from the callee bodies; frozen table for the standard library) has a provenance of allocations made inside the function. (R-LEAN-AGREE) in each of LISFunc and LNDSFunc the strictness of the fast-path comparison agrees with the lean of the binary search it falls back to: LNDS = (>=, right-leaning), LIS = (>, left-leaning); the lean of the in-repository search is read from its body. Each wrong pairing is wrong exactly on runs of equal elements. (R-CMP-SIGN) comparison results are tested by sign only; the strict variant takes no shortcut on slices.IsSorted*; (R-SIBLING-GUARD) guards before a comparison of an element of each input constrain both indices or neither. LCS hands its two inputs to LCSFunc as they are. Does NOT decide that results are subsequences of maximum length."
+	c.Explanation = "Decides: (R-INPUT-IMMUTABLE) none of LCS/LCSFunc/LIS/LISFunc/LNDS/LNDSFunc/bisectRight/EditScript/editScriptFunc (nor their closures) can write through its input: every element store, copy destination, append base, clear, and every slice passed to a mutating callee (summaries computed from the callee bodies; frozen table for the standard library) has a provenance of allocations made inside the function. (R-LEAN-AGREE) in each of LISFunc and LNDSFunc the strictness of the fast-path comparison agrees with the lean of the binary search it falls back to: LNDS = (>=, right-leaning), LIS = (>, left-leaning); the lean of the in-repository search is read from its body. Each wrong pairing is wrong exactly on runs of equal elements. (R-CMP-SIGN) comparison results are tested by sign only; the strict variant takes no shortcut on slices.IsSorted*; (R-SIBLING-GUARD) guards before a comparison of an element of each input constrain both indices or neither. LCS hands its two inputs to LCSFunc as they are. LCSFunc, LISFunc and LNDSFunc hand back a parameter (directly or through a helper) only where it is known to be empty. Does NOT decide that results are subsequences of maximum length."
 	c.rule("R-INPUT-IMMUTABLE", 10, "every write event in the subsequence functions goes through a value whose origin is Fresh")
 	c.rule("R-LEAN-AGREE", 4, "LNDSFunc = (>=, Right), LISFunc = (>, Left); LIS/LNDS delegate with cmp.Compare")
 	c.rule("R-CMP-SIGN", 1, "every test of a comparison function's result against a constant is a test of its sign only")
